@@ -287,7 +287,7 @@ def install(E):
     @reg_re(E, r'^<.* as Fn(Once|Mut)?<.*>>::call(_once|_mut)?$')
     def _fn_call(E, a, ctx):
         clo, tup = a
-        args = list(tup.fields) if isinstance(tup, Agg) and tup.ty == 'tuple' else [tup]
+        args = list(tup.fields) if isinstance(tup, Agg) and tup.ty in ('tuple', '()') else [tup]
         r = yield from call_closure(E, clo, args)
         return r
 
